@@ -574,10 +574,10 @@ func c13Mine(c *Ctx, rel string) {
 		et := b.Of(e.Results[1], e.Instr)
 		vt := b.Of(e.Results[0], e.Instr)
 		if et.Is("nil") {
-			okMine = matches("ext#0(un<<->(_))", vt) && mustPass(f, e.Instr.Block(), okEdge)
+			okMine = matches("ext#0(un<<->(_))", vt) && exitMustPass(f, e, okEdge)
 		} else if strings.Contains(et.String(), "ErrCancelled") {
 			nCancel++
-			if !mustPass(f, e.Instr.Block(), notOk) {
+			if !exitMustPass(f, e, notOk) {
 				okMine = false
 				r.Viol(K("C13.result.mine"), c.ipos(e.Instr), "ErrCancelled returned on a path other than the !ok receive")
 			}
